@@ -8,6 +8,10 @@ NOTES = {
  'C01-2': 'categorical columns are outside the symdf double (stated under C01 "outside the claim")',
  'C06-2': 'index alignment of a real pandas Series is outside the symdf double (no index semantics); the change also uses '
           'pd.Series, which the double reports as unsupported -> inconclusive, not a violation',
+ 'C01-r3-2': 'categorical columns (declared but unused categories) are outside the symdf double (stated under C01 "outside the claim")',
+ 'C05-r3-2': 'row-label alignment after a condition filter is real-pandas index semantics, which the CFrame double does not '
+             'have; the change also calls sort_values(ignore_index=True), which the double reports as unsupported -> '
+             'inconclusive, not a violation',
  'C11-2': 'needs chardet to mis-detect an encoding: chardet and real encodings are outside (stated)',
 }
 rows = []
